@@ -778,6 +778,13 @@ var MergeFunc = function.New(&function.Spec{
 		first := cty.NilType
 		matching := true
 		attrsKnown := true
+		for _, arg := range args {
+			// any dynamic args mean we can't compute a type, but the other
+			// arguments must still be valid
+			if ty := arg.Type(); !ty.Equals(cty.DynamicPseudoType) && !ty.IsMapType() && !ty.IsObjectType() {
+				return cty.NilType, fmt.Errorf("arguments must be maps or objects, got %#v", ty.FriendlyName())
+			}
+		}
 		for i, arg := range args {
 			ty := arg.Type()
 			// any dynamic args mean we can't compute a type
